@@ -13,7 +13,9 @@ META = {
             "ESR_VERIF hook) the recorded chain of substitutions, composed as convert_params/check_results compose it and parsed by an independent reader, "
             "maps the unique function's parameters to parameters at which the function equals its unique pointwise (5 generic points, mpmath); "
             "'nan' entries only where the unique has strictly fewer parameters; uniques pairwise distinct, parameters without gaps; all per-function "
-            "files have one line per function. The propagation of the substitution chains through do_sympy and the round files, the chain assembly in duplicate_checker.main "
+            "files have one line per function. Step (3) of do_sympy (both copies of the loop) is verified: every function takes the new string of its own unique function and its chain is the old chain followed, in order, by "
+            "what the round recorded for that unique function (nothing appended when nothing was recorded), with a composition lemma over get_unique_indexes' contract and an ASSUMED per-step "
+            "relation for sympy_simplify. The round files, the chain assembly in duplicate_checker.main "
             "(all_inv_subs = [[]] * ntot with rebinding) and the per-step contract of sympy_simplify are covered by the bounded part only; the cancellation of chains is C17. "
             "The repair step: the rank-0 bookkeeping at the end of check_results is verified in three regions (which strings are appended to the unique list: pairwise distinct, never an "
             "old unique function, every un-merged function found in old_pos or among the appended ones; the map rows of the un-merged functions become the empty row, all others unchanged; "
@@ -62,6 +64,15 @@ def check(run):
         failed_all += failed
         if st == "proved" and D.canary(run, "generation/simplifier.py", "check_results", mk) is False:
             raise RuntimeError("canary verified: engine vacuous on check_results region %s" % tag)
+    # do_sympy step (3): every function follows its unique function's rewriting; chains are extended at the end, in order (both copies of the loop)
+    from contracts import c_dosympy
+    for w in (0, 1):
+        st, failed, eng = D.verify_function(run, "generation/simplifier.py", "do_sympy", (lambda w=w: c_dosympy.replace_contract(w)), timeout_ms=15000,
+                                            tag="replacements-%d" % w, note="region: the loop 'Make replacements to full functions list' (%s rounds)" % ("simplification" if w == 0 else "expansion"))
+        failed_all += failed
+        if st == "proved" and D.canary(run, "generation/simplifier.py", "do_sympy", (lambda w=w: c_dosympy.replace_contract(w))) is False:
+            raise RuntimeError("canary verified: engine vacuous on the replacement loop of do_sympy")
+    lfailed0 = D.prove_lemmas(run, "do_sympy: composition with get_unique_indexes", c_dosympy.composition_lemma(), timeout_ms=20000)
     lfailed = D.prove_lemmas(run, "check_results: composition of the un-merge regions", c_checkres.composition_lemmas(), timeout_ms=20000)
     crjob = {"runname": "core_maths", "n": 4, "P_list": [1, 2] if tier == "quick" else [1, 2, 5], "ncorrupt": 6 if tier == "quick" else 12}
     rcr = run.harness("rt_gen.py", {"mode": "c13cr", "jobs": [crjob], "seed": run.seed}, root=run.fresh_copy(), timeout=3000)
@@ -70,6 +81,7 @@ def check(run):
     for f in rcr["failures"][:1]:
         run.violation("c03cr:%s:%d:P=%s" % (f["job"]["runname"], f["job"]["n"], f.get("P")), f["error"][:900],
                       {"harness": "rt_gen.py", "payload": {"mode": "c13cr", "jobs": [dict(f["job"], P_list=[f.get("P", 1)])], "seed": run.seed}, "fresh_copy": True})
+    lfailed = list(lfailed0) + list(lfailed)
     if lfailed and not run.violations:
         run.violation("lemma:" + lfailed[0][0][:60], "composition lemma of the un-merge regions is no longer proved: %s" % lfailed[0][0],
                       {"lemma": lfailed[0][0], "model": str(lfailed[0][1])[:2000]}, no_input=True)
